@@ -89,6 +89,7 @@ class MColl:
     items: list
     depth: int  # length of the context stack when it was created
     origin: Any = None
+    default_kind: str | None = None  # defaultdict(list / set): a missing key yields an accumulator
     run_depth: int = 0  # number of loops being executed when it was created
     filled_in: set = field(default_factory=set)  # loops (executions) that added elements
 
@@ -160,6 +161,7 @@ class Evaluator:
         self.fluent_roots = fluent_roots or set()
         self.stages = stages or {}  # fq function name -> stage name (summarised calls)
         self.stage_hook = None  # (evaluator, stage name, bound arguments, node) -> value | None
+        self.set_syms = {"M", "D"}  # symbolic inputs without duplicates (sets, dict keys); `R` is a list
         self.expected_effects = {"assert_applies"}  # method calls on symbolic receivers that are part of the analysed protocol
         self.skipped: list[str] = []  # code that was not evaluated at all (hard problems)
         self.steps = 0
@@ -185,7 +187,7 @@ class Evaluator:
         return ("opaque", why, ())
 
     def new_coll(self, kind: str, origin=None) -> MColl:
-        m = MColl(self.fresh(), kind, [], len(self.ctx), origin, len(self.running))
+        m = MColl(self.fresh(), kind, [], len(self.ctx), origin, run_depth=len(self.running))
         self.heap_colls[m.cid] = m
         return m
 
@@ -688,6 +690,8 @@ class Evaluator:
                 names = [k for c in reversed(self.repo.mro(o.cls)) for k in c.ann_attrs]
                 if 0 <= i[1] < len(names) and names[i[1]] in o.fields:
                     return o.fields[names[i[1]]]
+        if v[0] == "mcoll" and self.heap_colls[v[1]].default_kind is not None:
+            return ("slot", v[1], self.snapshot(i))
         if v[0] == "mcoll" and self.heap_colls[v[1]].kind == "dict":
             hit = self.lookup_by_binder(self.heap_colls[v[1]], i)
             if hit is not None:
@@ -783,6 +787,10 @@ class Evaluator:
             if raw[0] in ("items", "keys", "values"):
                 raw = raw[1]
             items = self.heap_colls[raw[1]].items if raw[0] == "mcoll" else dcore[2]
+            if not self.unique_keys(items):
+                # a later store may overwrite an earlier one: the dict is not the bag of its stores; left to the normal form
+                self.iterate_var(snap, target, fr, body)
+                return
             for item in list(items):
                 pair = item[1]
                 elt = {"items": ("tuple", (pair[1], pair[2])), "keys": pair[1], "values": pair[2]}[view]
@@ -1134,6 +1142,15 @@ class Evaluator:
     def call_method(self, recv, name, args, kwargs, node):
         recv = self.reduce(recv)
         t = recv[0]
+        if t == "slot":
+            m = self.heap_colls[recv[1]]
+            if name in ("append", "add") and len(args) == 1:
+                self.add_item(m, ("acc", recv[2], args[0]))
+                return NONE
+            if name in ("extend", "update") and len(args) == 1:
+                self.add_item(m, ("accsplat", recv[2], args[0]))
+                return NONE
+            return self.problem(f"method {name} on a dict entry that accumulates", node)
         if t == "ite":
             n = len(self.ctx)
             self.ctx.append(("if", recv[1]))
@@ -1215,6 +1232,38 @@ class Evaluator:
         new = make(cur)
         m.items = [("splat", new if cond == TRUE else ("ite", cond, new, cur))]
 
+    def unique_key(self, item) -> bool:
+        """The key of `d[k] = v` stored under binders cannot collide with the key of another element: k is the loop variable
+        (or the key half of an items() element) of a loop over a set / the keys of a dict - not over a list."""
+        if item[0] == "elem":
+            return item[1][0] == "pair" and item[1][1][0] == "const"
+        if item[0] != "gen" or item[1][0] != "pair":
+            return False
+        key = item[1][1]
+        halves = False
+        if key[0] == "index" and key[2] == ("const", 0):
+            key, halves = key[1], True
+        if key[0] != "var":
+            return False
+        for b in item[2]:
+            if b[0] == "for" and b[1] == key:
+                it = b[2]
+                while it[0] == "wrap" and it[1] in WRAPPERS:
+                    it = it[2]
+                if halves:
+                    return it[0] == "items" and it[1][0] == "sym" and it[1][1] in self.set_syms
+                if it[0] == "keys":
+                    it = it[1]
+                return it[0] == "sym" and it[1] in self.set_syms
+        return False
+
+    def unique_keys(self, items) -> bool:
+        items = list(items)
+        if all(it[0] == "elem" for it in items):
+            keys = [it[1][1] for it in items if it[1][0] == "pair"]
+            return len(keys) == len(items) and all(k[0] == "const" for k in keys) and len(set(keys)) == len(keys)
+        return len(items) == 1 and self.unique_key(items[0])
+
     def lookup_by_binder(self, m: MColl, key):
         """d[k] while (re-)iterating the very loop that stored d[k] = v for the loop element k: that v.
         Only for keys that are the loop variable itself (or the key half of an `items()` element): one entry per element."""
@@ -1229,7 +1278,7 @@ class Evaluator:
         for it in m.items:
             if it[0] != "gen" or it[1][0] != "pair" or it[1][1] != key:
                 continue
-            if not any(b[0] == "for" and b[1] == base for b in it[2]):
+            if not any(b[0] == "for" and b[1] == base for b in it[2]) or not self.unique_key(it):
                 continue
             if all(b in ctx for b in it[2]):
                 found = it[1][2]  # the last store wins
@@ -1279,7 +1328,11 @@ class Evaluator:
             self.add_item(m, args[1])
             return NONE
         if name == "setdefault" and m.kind == "dict" and 1 <= len(args) <= 2:
-            self.problem("dict.setdefault on a collection being built", node)
+            d = self.snapshot(args[1]) if len(args) == 2 else NONE
+            if d[0] == "coll" and not d[2] and d[1] in ("list", "set"):
+                # `d.setdefault(k, []).append(x)`: the entry of k accumulates
+                return ("slot", m.cid, self.snapshot(args[0]))
+            self.problem("dict.setdefault with a default that is not an empty list / set", node)
             return ("opaque", "setdefault", ())
         if name in ("discard", "remove") and len(args) == 1 and m.kind == "set":
             single = ("coll", "set", (("elem", self.snapshot(args[0])),))
@@ -1407,7 +1460,16 @@ class Evaluator:
             self.heap_objs[o.oid] = o
             o.fields.update(kwargs)
             return ("obj", o.oid)
-        if dotted in ("collections.defaultdict", "collections.OrderedDict") or short in ("deque",):
+        if dotted == "collections.OrderedDict":
+            c = self.new_coll("dict")
+            if args:
+                self.add_item(c, args[0], splat=True)
+            return ("mcoll", c.cid)
+        if dotted == "collections.defaultdict" and len(args) == 1 and args[0] in (("builtin", "list"), ("builtin", "set")):
+            c = self.new_coll("dict")
+            c.default_kind = args[0][1]
+            return ("mcoll", c.cid)
+        if dotted in ("collections.defaultdict",) or short in ("deque",):
             self.problem(f"{dotted} container", node)
         if dotted.startswith("typing.") and short == "cast" and len(args) == 2:
             return args[1]
@@ -1478,6 +1540,9 @@ class Evaluator:
     def s_AugAssign(self, s, fr):
         cur = self.eval(ast.copy_location(_load(s.target), s.target))
         v = self.eval(s.value)
+        if cur[0] == "slot" and isinstance(s.op, (ast.Add, ast.BitOr)):
+            self.add_item(self.heap_colls[cur[1]], ("accsplat", cur[2], v))
+            return False
         if cur[0] == "mcoll":
             m = self.heap_colls[cur[1]]
             if isinstance(s.op, (ast.Add, ast.BitOr)):
